@@ -28,7 +28,7 @@ RULE = (
     "while_do / do_while around repeat(n)) so that it must run n times per subscription; a quarter to a third of the "
     "'lists' / 'catch' cases use the shape 'source terminating synchronously inside its own subscribe, followed by a "
     "source still running when its subscribe returns' for every operator form; subscribed at a generated tick on the virtual "
-    "scheduler (TestScheduler, one case in five HistoricalScheduler with 1 ms ticks) or through the default CurrentThreadScheduler trampoline. Oracle: (a) closed-form walk over the timelines "
+    "scheduler (TestScheduler, one case in five HistoricalScheduler with 1 ms ticks) or through the default CurrentThreadScheduler trampoline, or with scheduler=ImmediateScheduler() (continuations run inline, re-entrantly; no take / unbounded count in that mode). Oracle: (a) closed-form walk over the timelines "
     "gives the exact expected trace (ticks, values, terminal) = concatenation of the consumed sources' elements offset by "
     "the previous terminal's tick; (b) over the subscription logs: the global subscription order and subscribe ticks "
     "equal the walk's, every earlier subscription is closed no later (tick) than the next is opened, the "
@@ -37,6 +37,7 @@ RULE = (
     "Distinct = distinct case JSON."
 )
 ASSUMPTIONS = [
+    "with subscribe(scheduler=ImmediateScheduler()) a downstream unsubscription cannot take effect before subscribe() returns (listed under C14), so those cases use no take and finite counts only",
     "sources are conforming (nothing after their terminal); a source without terminal makes the composition wait forever",
     "unbounded repeat/retry whose runs carry no element (never reaching the take) are discarded before execution (counted as inconclusive:diverges)",
     "retry(0)/catch() over no source: only 'no subscription, no element' is required (the terminal kind is not stated by the property)",
@@ -429,7 +430,13 @@ def _run(case):
     S = [TSource(lab, spec, f"s{i}") for i, spec in enumerate(case["srcs"])]
     o = build(case, lab, S)
     p = lab.probe()
-    lab.at(case["t0"], lambda: p.subscribe(o, scheduler="lab" if case["sched"] == "lab" else None))
+    if case["sched"] == "imm":
+        from reactivex.scheduler import ImmediateScheduler
+
+        sch = ImmediateScheduler()
+    else:
+        sch = "lab" if case["sched"] == "lab" else None
+    lab.at(case["t0"], lambda: p.subscribe(o, scheduler=sch))
     lab.run()
     if lab.inconclusive:
         return SKIP(lab.inconclusive)
@@ -510,6 +517,10 @@ def _run(case):
             cls.append("terminal-inside-subscribe-then-async-next")
             cls.append(f"terminal-inside-subscribe-then-async-next:{op}/{case['form']}")
             break
+    if case["sched"] == "imm":
+        async_src = lambda r: case["srcs"][r["src"]]["kind"] != "sync" or any(m_[0] > 0 for m_ in r["tl"]) or not any(m_[1] in ("C", "E") for m_ in r["tl"])  # noqa: E731
+        if "terminal-inside-subscribe-then-async-next" in cls or (op == "start_with" and exp_subs and async_src(exp_subs[0])):
+            cls.append("imm:inline-continuation-into-async-source")
     if len(subs) >= 2 and any(a["sub"] == b["sub"] for a, b in zip(subs, subs[1:])):
         cls.append("same-tick-resubscribe")
     if case.get("take") is not None and exp_subs and exp_subs[-1]["kind"] == "cut":
@@ -535,7 +546,22 @@ def _run(case):
 _MOSTLY_C = ("C", "C", "C", "E", "C", "C", "C", None)
 _MOSTLY_E = ("E", "E", "E", "C", "E", "E", "E", None)
 _KIND = st.sampled_from(["cold", "cold", "sync"])
-_COMMON = {"t0": st.integers(0, 3), "sched": st.sampled_from(["lab", "lab", "none"]), "clock": st.sampled_from(["test", "test", "test", "test", "hist"])}
+def _finish(draw, c):
+    """Draw the subscription parameters.  sched: "lab" = subscribe(scheduler=<virtual scheduler>), "none" = no scheduler
+    (default trampoline), "imm" = subscribe(scheduler=ImmediateScheduler()), which runs every continuation inline
+    (re-entrantly).  Under "imm" an unsubscription issued by the downstream cannot take effect before subscribe()
+    returns (known, listed limitation: C14), so such cases carry no take and no unbounded count."""
+    for k, s in _COMMON.items():
+        c[k] = draw(s)
+    if c["sched"] == "imm":
+        if c.get("take") is not None:
+            c["take"] = None
+        if "n" in c and c["n"] is None:
+            c["n"] = 3
+    return c
+
+
+_COMMON = {"t0": st.integers(0, 3), "sched": st.sampled_from(["lab", "lab", "none", "imm"]), "clock": st.sampled_from(["test", "test", "test", "test", "hist"])}
 
 
 _ERRS = ["e1", "e2"]
@@ -581,9 +607,7 @@ def _lists(draw):
             c["take"] = draw(st.integers(1, len(c["vals"]) + 2))  # 1..k cuts inside / exactly at the end of the prefix
     elif draw(st.integers(0, 3)) == 0:
         c["take"] = draw(st.integers(1, 6))  # downstream satisfied in mid-list: later sources must not be subscribed
-    for k, s in _COMMON.items():
-        c[k] = draw(s)
-    return c
+    return _finish(draw, c)
 
 
 @st.composite
@@ -593,9 +617,7 @@ def _counts(draw):
     n = draw(st.sampled_from([2, 3, 4, 1, None, 2, 3, 4, None, 0]))
     take = draw(st.integers(1, 6)) if (n is None or draw(st.integers(0, 3)) == 0) else None
     c = {"op": op, "form": draw(st.sampled_from(["arg", "default"])), "srcs": [src], "order": [0], "n": n, "take": take}
-    for k, s in _COMMON.items():
-        c[k] = draw(s)
-    return c
+    return _finish(draw, c)
 
 
 @st.composite
@@ -629,9 +651,7 @@ def _nested(draw):
     src = _scripted(draw, terms)
     take = draw(st.integers(1, 8)) if draw(st.integers(0, 5)) == 0 else None
     c = {"op": "compose", "form": shape, "srcs": [src], "tree": tree, "cond": cond, "take": take}
-    for k_, s_ in _COMMON.items():
-        c[k_] = draw(s_)
-    return c
+    return _finish(draw, c)
 
 
 def _sync_head(draw, term):
@@ -699,9 +719,7 @@ def _sync_async(draw, fam):
             c["order"] = [0, 1]
         else:
             c["order"] = order
-    for k_, s_ in _COMMON.items():
-        c[k_] = draw(s_)
-    return c
+    return _finish(draw, c)
 
 
 @st.composite
@@ -738,9 +756,7 @@ def _catches(draw):
             k = draw(st.sampled_from([2, 3, 1, 4, 5, 2, 3, 4, 5, 0]))
             items = [draw(item) for _ in range(k)]
         c = {"op": "on_error_resume_next", "form": form, "srcs": srcs, "items": items}
-    for k, s in _COMMON.items():
-        c[k] = draw(s)
-    return c
+    return _finish(draw, c)
 
 
 @st.composite
@@ -749,9 +765,7 @@ def _loops(draw):
     k = draw(st.sampled_from([2, 3, 1, 4, 2, 3, 4, 0]))
     cond = [draw(st.sampled_from([True, True, True, True, False])) for _ in range(k)]
     c = {"op": op, "form": "op", "srcs": [_scripted(draw, _MOSTLY_C)], "order": [0], "cond": cond}
-    for k, s in _COMMON.items():
-        c[k] = draw(s)
-    return c
+    return _finish(draw, c)
 
 
 def checks(tier):
